@@ -560,14 +560,25 @@ def oracle_html(op, viol):
             lit_before.append(items[j - 1][1] if j > 0 and items[j - 1][0] == "lit" else "")
             lit_after.append(items[j + 1][1] if j + 1 < len(items) and items[j + 1][0] == "lit" else "")
 
+    # template-dependent corners, found on the characters with their provenance (L = template
+    # literal, V = interpolated value; a value can never contribute '>' or '<': they are escaped)
+    prov = []
+    n_ = 0
+    for it in items:
+        if it[0] == "lit":
+            prov += [(c, "L") for c in it[1]]
+        else:
+            prov += [(c, "V") for c in py_format_value(used[n_], it[2], percent) if c not in "<>&"]
+            n_ += 1
+    cr_lf = any(prov[i] == ("\r", "L") and prov[i + 1] == ("\n", "V") for i in range(len(prov) - 1))
+    rbr = any(prov[i][0] == "]" and prov[i + 1][0] == "]" and prov[i + 2] == (">", "L")
+              for i in range(len(prov) - 2))
+
     def classify(default, raised=False):
-        joined = fill(lambda n, it: py_format_value(used[n], it[2], percent).replace(">", ""))
-        if "]]>" in joined and any("]" in v for v in used + [""]) and raised:
+        if rbr and raised:
             return "HTML.format | value ending in ] before a literal >"
-        for i in range(len(holes)):
-            e = py_format_value(used[i], holes[i][2], percent)
-            if lit_before[i].endswith("\r") and e.startswith("\n"):
-                return "HTML.format | literal CR before the hole merges with a leading LF of the value"
+        if cr_lf:
+            return "HTML.format | literal CR before the hole merges with a leading LF of the value"
         if wp:
             return "HTML.__mod__ | width or precision counts the escaped characters"
         if raised and any(XML_ILLEGAL.search(v) for v in used):
@@ -788,6 +799,7 @@ def rand_html_string(rng):
     s = "".join(html_content(rng, 0, None))
     if rng.random() < 0.25 and s:
         # damage it: delete / insert / replace one character
+        s = "".join(c for c in s if ord(c) < 128) or "a"   # non-ASCII names are outside the model
         i = rng.randrange(len(s))
         s = s[:i] + rng.choice(["", rng.choice(HTML_ALPHA), rng.choice(HTML_ALPHA) + s[i]]) + s[i + 1:]
     return s
